@@ -11,6 +11,7 @@ package main
 // the IdKeeper's counters and every store item (key, and ID + payload of the stored part file).
 
 import (
+	"crypto/ed25519"
 	"fmt"
 	"io/ioutil"
 	"os"
@@ -146,7 +147,7 @@ func ikRequest(tid int, two bool) bpv7.Bundle {
 	if two {
 		// an unknown block that asks for the bundle's deletion: the node also reports the deletion
 		// (second report, created right after the first)
-		bl = bl.BundleCtrlFlags(bpv7.StatusRequestReception | bpv7.StatusRequestDeletion).
+		bl = bl.BundleCtrlFlags(bpv7.StatusRequestReception|bpv7.StatusRequestDeletion).
 			Canonical(bpv7.NewGenericExtensionBlock([]byte{1, 2, 3}, 221), bpv7.DeleteBundle)
 	}
 	b, err := bl.Build()
@@ -208,7 +209,10 @@ func (x *ikScen) sends() S {
 	return LL(l)
 }
 
-type ikKRec struct{ src int; t, c uint64 }
+type ikKRec struct {
+	src  int
+	t, c uint64
+}
 
 func (x *ikScen) keeperRecs() []ikKRec {
 	src, tm, cnt := x.n.Core.VerifIdKeeperState()
@@ -433,6 +437,11 @@ func (x *ikScen) do(op ikOp) {
 
 func ikRunScen(o *Out, name string, ops []ikOp) {
 	n := NewNode("dtn://n0/", routing.RoutingConf{Algorithm: "epidemic"})
+	if strings.HasPrefix(name, "signed-") {
+		// a node with a signing key: administrative records get a signature block before they are numbered
+		n.Destroy()
+		n = NewNodeSigned("dtn://n0/", routing.RoutingConf{Algorithm: "epidemic"}, ed25519.NewKeyFromSeed(make([]byte, ed25519.SeedSize)))
+	}
 	x := &ikScen{n: n, t0: uint64(bpv7.DtnTimeNow()), ref: map[string]int{}}
 	x.openAgent()
 	defer func() { x.closeAgents(); n.Destroy() }()
@@ -486,6 +495,10 @@ func genC14idkeeper(o *Out, r *Rng, thorough bool) {
 	ikRunScen(o, "reports2-peer", []ikOp{up(1), sub1("r2", 0, ikNow), sub1("r2", 0, ikNow), up(2)})
 	ikRunScen(o, "reports2-grp", []ikOp{grp(ikSpec{"r2", 0, ikNow}, ikSpec{"r2", 0, ikNow}, ikSpec{"rp", 0, ikNow}), up(1)})
 	ikRunScen(o, "reports-peer", []ikOp{up(1), sub1("rp", 0, ikNow), sub1("rp", 0, ikNow), sub1("rp", 0, ikNow), up(2)})
+	// the same on a node that signs its administrative records
+	ikRunScen(o, "signed-reports", []ikOp{sub1("rp", 0, ikNow), sub1("rp", 0, ikNow), sub1("rp", 0, ikNow), up(1), opTick})
+	ikRunScen(o, "signed-reports2-grp", []ikOp{grp(ikSpec{"r2", 0, ikNow}, ikSpec{"r2", 0, ikNow}, ikSpec{"rp", 0, ikNow}), up(1)})
+	ikRunScen(o, "signed-reports-peer", []ikOp{up(1), sub1("rp", 0, ikNow), sub1("rp", 0, ikNow), sub1("rp", 0, ikNow), up(2)})
 	// cleaning threshold: 60 s old is kept, 120 s and 30 min old entries are dropped (and their
 	// counters start again at 0)
 	ikRunScen(o, "clean", []ikOp{sub1("sb", 1, ikKept), sub1("sb", 1, ikOld), sub1("sb", 1, ikHalfH), sub1("sb", 1, ikEpoch), opClean,
